@@ -142,7 +142,7 @@ let handle_obs label kind (value : string) =
   | "rib" | "rnodes" -> Rib_glue.handle_obs cur.rib cur.case_id cur.opno label kind value
   | _ -> Printf.printf "BADLINE %d unknown observation %s\n" !lineno kind
 
-let () =
+let fib_main () =
   (try
     while true do
       let line = input_line stdin in
@@ -187,3 +187,6 @@ let () =
   with End_of_file -> ());
   finish_case ();
   Printf.printf "DONE %d %d %d\n" !ncases !lineno !nobs
+
+let () =
+  if Array.length Sys.argv > 1 && Sys.argv.(1) = "conc" then Conc_check.main () else fib_main ()
